@@ -9,6 +9,10 @@ def classify(inp, obs, tags):
 
 
 PROP = dict(
+    # cross-check of the extraction itself: generated allocator histories evaluated by the extracted OCaml model AND
+    # inside Coq (vm_compute on Rawdb/AllocDigest.a_trace_digest: every field of every state, every result, sampled
+    # bytes); the digests must be equal.  Cheap enough for every run.
+    always_cmds=[["tools/x_crosscheck.py", "rawdb", "--cases", "24"]],
     engines=[dict(
         name="rawdb", classify=classify, shrink="ops",
         quick=dict(cases=480, shards=8, profiles=["debug"]),
